@@ -1,7 +1,7 @@
 (* CollExecProofs instantiated: the collection over the intrusive list and over the address-ordered list refines the Spec *)
 From Coq Require Import ZArith NArith List Bool Lia.
 From FM Require Import Wrap GenArith ArithModel FixedStack SmallCarve PoolSpec SlotProofs ListLib PoolSpecProofs Stack Arena
-     UnorderedList UnorderedListProofs UnorderedRefine OrderedList OrderedListProofs OrderedRefine InvalidRelease SmallList SmallListProofs SmallRefine CapacityProofs PoolExecProofs CollExec CollExecProofs CollInst CollSizes.
+     UnorderedList UnorderedListProofs UnorderedRefine OrderedList OrderedListProofs OrderedRefine InvalidRelease SmallList SmallListProofs SmallRefine CapacityProofs PoolExecProofs OrderedPoolExecProofs CollExec CollExecProofs CollInst CollSizes.
 Import ListNotations.
 Local Open Scope Z_scope.
 
@@ -325,11 +325,11 @@ Lemma ur_prog_alloc g s : UR g s -> 0 < ug_free g -> exists g' x, ugstep g UAllo
 Proof.
   intros _ Hpos. unfold ug_free, u_capacity in Hpos. cbn [ugstep]. unfold u_alloc. destruct (u_nodes (ug_l g)) as [|x tl]; [cbn in Hpos; lia|]. eexists _, _. reflexivity.
 Qed.
-Lemma ur_prog_ins g rs l m size : UR g {| us_rs := rs; us_l := l |} -> 0 < size ->
+Lemma ur_prog_ins g rs l m size : UR g {| us_rs := rs; us_l := l |} -> 0 < size -> ug_ns g <= intr_usable (ug_ns g) size ->
   (forall x, In x rs -> 0 < snd (snd x) /\ (fst (snd x) + snd (snd x) <= m \/ m + size <= fst (snd x))) ->
   exists g', ugstep g (UIns m size) = Some (g', None).
 Proof.
-  intros Hur Hsize Hdis. cbn [ugstep]. pose proof Hur as ((_ & Hns) & _).
+  intros Hur Hsize _ Hdis. cbn [ugstep]. pose proof Hur as ((_ & Hns) & _).
   assert (Hall : forallb (outside m (size / u_ns (ug_l g)) (u_ns (ug_l g))) (ulive_slots (u_ns (ug_l g)) (ug_live g) ++ u_nodes (ug_l g)) = true).
   { apply forallb_forall. intros a Ha. destruct (known_inside _ _ _ _ Hur Ha) as (r & Hr & Hlo & Hhi). destruct (Hdis _ Hr) as [_ Hd]. cbn [snd fst] in Hd.
     unfold outside. apply orb_true_iff. destruct Hd as [Hd|Hd]; [left; apply Z.leb_le; lia|right; apply Z.leb_le].
@@ -399,4 +399,58 @@ Proof.
   - rewrite map_length. destruct (coll_sizes log2 max) as [|x tl] eqn:E; [|cbn; lia]. unfold coll_max in H1. rewrite E in H1. cbn in H1. lia.
   - intros size Hs. assert (Hin : In (Z.to_nat size) (seq 1 (Z.to_nat (coll_max log2 max)))) by (apply in_seq; lia).
     specialize (H3 _ Hin). cbv zeta in H3. rewrite Z2Nat.id in H3 by lia. apply andb_true_iff in H3 as [Ha Hb]. split; [apply Z.leb_le; exact Ha|apply c_find_map_empty; exact Hb].
+Qed.
+
+(* ---------- the same for the collection over the address-ordered list ---------- *)
+Lemma or_prog_alloc g s : OR g s -> 0 < og_free g -> exists g' x, og_step g UAlloc = Some (g', Some x).
+Proof.
+  intros _ Hpos. unfold og_free, o_capacity, n_of in Hpos. unfold og_step. cbn [o_of_u ogstep]. unfold o_alloc. destruct (nodes (og_l g)) as [|x tl]; [cbn in Hpos; lia|]. eexists _, _. reflexivity.
+Qed.
+Lemma or_prog_ins g rs l m size : OR g {| us_rs := rs; us_l := l |} -> 0 < size -> og_ns g <= intr_usable (og_ns g) size ->
+  (forall x, In x rs -> 0 < snd (snd x) /\ (fst (snd x) + snd (snd x) <= m \/ m + size <= fst (snd x))) ->
+  exists g', og_step g (UIns m size) = Some (g', None).
+Proof.
+  intros Hor Hsize Hus Hdis. unfold og_step. cbn [o_of_u ogstep]. pose proof Hor as (Hinv & _). pose proof Hinv as (_ & _ & _ & Hns).
+  destruct (intr_usable_nodes (og_ns g) m size Hns Hus) as [Hn _]. cbn [nodes_of snd] in Hn. unfold SmallCarve.l_nodes, og_ns in Hn.
+  set (ns := nsz (og_l g)) in *. assert (Hle : size / ns * ns <= size) by (pose proof (Z.mul_div_le size ns Hns); lia).
+  assert (Hall : forallb (outside m (size / ns) ns) (ulive_slots ns (og_live g) ++ nodes (og_l g)) = true).
+  { apply forallb_forall. intros a Ha. destruct (oknown_inside _ _ _ a Hor Ha) as (r & Hr & Hlo & Hhi). fold ns in Hr, Hhi. destruct (Hdis _ Hr) as [_ Hd]. cbn [snd fst] in Hd.
+    unfold outside. apply orb_true_iff. destruct Hd as [Hd|Hd]; [left; apply Z.leb_le; lia|right; apply Z.leb_le; lia]. }
+  rewrite Hall. destruct (Z.leb_spec 1 (size / ns)); [|lia]. cbn [andb].
+  destruct (insert_valid false false (og_l g) m size Hinv) as (l' & Hl' & _).
+  - fold ns. lia.
+  - intros x Hx. fold ns. rewrite forallb_forall in Hall. assert (Hin : In x (ulive_slots ns (og_live g) ++ nodes (og_l g))) by (apply in_or_app; right; exact Hx).
+    specialize (Hall x Hin). unfold outside in Hall. apply orb_true_iff in Hall. rewrite Z2Nat.id by lia. destruct Hall as [H1|H1]; apply Z.leb_le in H1; [left; lia|right; lia].
+  - rewrite Hl'. eexists. reflexivity.
+Qed.
+
+Definition OExt (log2 : bool) := Ext og og_ns (coll_bkt log2) intr_usable.
+Definition onode_history_ok (log2 : bool) := node_history_ok og og_ns og_free og_step (coll_bkt log2) intr_usable.
+Theorem ocoll_node_history_progress log2 os s sp : OCPR s sp -> OExt log2 s -> onode_history_ok log2 s sp os ->
+  exists s' tr sp', oc_run log2 s os = Some (s', tr) /\ run sp tr = Some sp' /\ OCPR s' sp' /\ OExt log2 s'.
+Proof.
+  apply (node_history_progress og og_ns og_free og_step (coll_bkt log2) intr_usable LIntrusive OR or_list or_pos og_step_refines intr_usable_nodes og_step_ns or_ranges
+           or_prog_alloc or_prog_ins intr_usable_mono_ns intr_usable_mono_size).
+Qed.
+
+Lemma c_find_og_array ns : forall sizes m, existsb (Z.eqb ns) sizes = true -> c_find og og_ns ns (og_array m sizes) <> None.
+Proof.
+  induction sizes as [|x tl IH]; intros m; cbn; [discriminate|]. unfold og_ns at 1. cbn [og_l o_empty nsz]. intros H.
+  destruct (Z.eqb_spec x ns) as [E|E]; [discriminate|]. destruct (Z.eqb_spec ns x) as [E'|E']; [congruence|]. cbn [orb] in H. apply IH. exact H.
+Qed.
+Lemma og_array_props : forall sizes m mx, (forall x, In x sizes -> x <= mx) -> Forall (fun g => og_ns g <= mx) (og_array m sizes) /\ length (og_array m sizes) = length sizes.
+Proof.
+  induction sizes as [|x tl IH]; intros m mx H; cbn; [split; [constructor|reflexivity]|]. destruct (IH (m + 48) mx (fun y Hy => H y (or_intror Hy))) as [H1 H2].
+  split; [constructor; [unfold og_ns; cbn; apply H; left; reflexivity|exact H1]|rewrite H2; reflexivity].
+Qed.
+Theorem oc_construct_ext log2 k fence max bs answer s evs : oc_construct log2 k fence max bs answer = Some (s, true, evs) ->
+  bucket_table_okb log2 max = true -> 0 <= bs < 2^64 -> 0 <= fence -> OExt log2 s.
+Proof.
+  intros Hc Hok Hbs Hfence. unfold oc_construct in Hc. unfold bucket_table_okb in Hok. apply andb_true_iff in Hok as [Hok H3]. apply andb_true_iff in Hok as [H1 H2].
+  apply Z.ltb_lt in H1. rewrite forallb_forall in H2, H3.
+  apply (construct_ext og og_ns (coll_bkt log2) intr_usable LIntrusive intr_usable_nodes intr_usable_mono_ns intr_usable_mono_size _ _ _ _ _ _ _ _ _ _ _ Hc H1 Hbs Hfence).
+  intros m. destruct (og_array_props (coll_sizes log2 max) m (coll_max log2 max) (fun x Hx => proj1 (Z.leb_le _ _) (H2 x Hx))) as [Ha Hb]. split; [exact Ha|split].
+  - rewrite Hb. destruct (coll_sizes log2 max) as [|x tl] eqn:E; [|cbn; lia]. unfold coll_max in H1. rewrite E in H1. cbn in H1. lia.
+  - intros size Hs. assert (Hin : In (Z.to_nat size) (seq 1 (Z.to_nat (coll_max log2 max)))) by (apply in_seq; lia).
+    specialize (H3 _ Hin). cbv zeta in H3. rewrite Z2Nat.id in H3 by lia. apply andb_true_iff in H3 as [Hx Hy]. split; [apply Z.leb_le; exact Hx|apply c_find_og_array; exact Hy].
 Qed.
